@@ -513,6 +513,36 @@ func TestVerifBoundedC17(t *testing.T) {
 		N *G           `valid:"exist"`
 		M map[string]G `valid:"exist"`
 	}
+	// an either group and a botheq group that share the id: they are different groups
+	type sameID struct {
+		A string `valid:"either=1"`
+		B string `valid:"either=1"`
+		P string `valid:"botheq=1"`
+		Q string `valid:"botheq=1"`
+	}
+	for _, c := range []struct {
+		v          sameID
+		wantE, wantB int
+	}{{sameID{"", "", "x", "x"}, 1, 0}, {sameID{"a", "", "x", "y"}, 0, 1}, {sameID{"", "", "x", "y"}, 1, 1}, {sameID{"a", "b", "x", "x"}, 0, 0}} {
+		n++
+		err := Struct(&c.v)
+		ce, cb := 0, 0
+		if err != nil {
+			ce, cb = strings.Count(err.Error(), "they shouldn't all be empty"), strings.Count(err.Error(), "they should be equal")
+		}
+		if ce != c.wantE || cb != c.wantB {
+			rep.report("C17.sameid", "Struct(%+v) = %v, want %d either clause(s) and %d botheq clause(s): groups either=1 and botheq=1 are distinct", c.v, err, c.wantE, c.wantB)
+		}
+		m := map[string]string{"A": c.v.A, "B": c.v.B, "P": c.v.P, "Q": c.v.Q}
+		errM := Map(m, NewRule().Set("A,B", "either=1").Set("P,Q", "botheq=1"))
+		ce, cb = 0, 0
+		if errM != nil {
+			ce, cb = strings.Count(errM.Error(), "they shouldn't all be empty"), strings.Count(errM.Error(), "they should be equal")
+		}
+		if ce != c.wantE || cb != c.wantB {
+			rep.report("C17.sameid", "Map(%v) = %v, want %d either clause(s) and %d botheq clause(s)", m, errM, c.wantE, c.wantB)
+		}
+	}
 	strs := []string{"", "x"}
 	ints := []int{1, 9}
 	count := func(err error, sub string) int {
